@@ -47,17 +47,21 @@ def import_labella():
 # ---- child's own environment), served from code objects compiled once
 
 _CODE = {}
+_CODE_BY_LEVEL = {}
 
 
-def _build_code_cache():
+def _build_code_cache(optimize=0):
     pkgdir = os.path.join(REPO, "labella")
+    out = {}
     for fn in sorted(os.listdir(pkgdir)):
         if not fn.endswith(".py"):
             continue
         path = os.path.join(pkgdir, fn)
         name = "labella" if fn == "__init__.py" else "labella." + fn[:-3]
         with open(path, "rb") as f:
-            _CODE[name] = (compile(f.read(), path, "exec"), path, fn == "__init__.py")
+            out[name] = (compile(f.read(), path, "exec", optimize=optimize), path, fn == "__init__.py")
+    _CODE_BY_LEVEL[optimize] = out
+    return out
 
 
 class _CachedLoader(object):
@@ -84,17 +88,23 @@ _FINDER = _CachedFinder()
 
 
 def prepare_reimport():
-    """Called once in a worker: compile every labella module of REPO."""
+    """Called once in a worker: compile every labella module of REPO (as the
+    interpreter would normally, and as `python -O` would: asserts stripped)."""
+    for level in (0, 1):
+        if level not in _CODE_BY_LEVEL:
+            _build_code_cache(level)
     if not _CODE:
-        _build_code_cache()
+        _CODE.update(_CODE_BY_LEVEL[0])
 
 
-def reimport_labella():
+def reimport_labella(optimize=0):
     """Called in a forked child after its environment (TZ) is in force: drop
     every labella module and import the package again, so that import-time
     state is computed under the child's environment exactly as at process
     start-up."""
     prepare_reimport()
+    _CODE.clear()
+    _CODE.update(_CODE_BY_LEVEL[1 if optimize else 0])
     for m in list(sys.modules):
         if m == "labella" or m.startswith("labella."):
             del sys.modules[m]
